@@ -148,7 +148,7 @@ func read(p *im.Program, rv reflect.Value, ty *im.Type) (wm.W, bool) {
 	root := p.Root(ty)
 	if rv.Kind() == reflect.Ptr {
 		if rv.IsNil() {
-			return wm.W{}, false
+			return wm.W{K: p.WireKind(ty)}, false
 		}
 		return read(p, rv.Elem(), ty)
 	}
@@ -164,12 +164,12 @@ func read(p *im.Program, rv reflect.Value, ty *im.Type) (wm.W, bool) {
 		return wm.Binary([]byte(rv.String())), true
 	case im.TBinary:
 		if rv.IsNil() {
-			return wm.W{}, false
+			return wm.Binary(nil), false
 		}
 		return wm.Binary(append([]byte{}, rv.Bytes()...)), true
 	case im.TList:
 		if rv.IsNil() {
-			return wm.W{}, false
+			return wm.W{K: wm.KList, EK: p.WireKind(root.Elem)}, false
 		}
 		w := wm.W{K: wm.KList, EK: p.WireKind(root.Elem)}
 		for i := 0; i < rv.Len(); i++ {
@@ -179,7 +179,7 @@ func read(p *im.Program, rv reflect.Value, ty *im.Type) (wm.W, bool) {
 		return w, true
 	case im.TSet:
 		if rv.IsNil() {
-			return wm.W{}, false
+			return wm.W{K: wm.KSet, EK: p.WireKind(root.Elem)}, false
 		}
 		w := wm.W{K: wm.KSet, EK: p.WireKind(root.Elem)}
 		if rv.Kind() == reflect.Map {
@@ -196,7 +196,7 @@ func read(p *im.Program, rv reflect.Value, ty *im.Type) (wm.W, bool) {
 		return w, true
 	case im.TMap:
 		if rv.IsNil() {
-			return wm.W{}, false
+			return wm.W{K: wm.KMap, KK: p.WireKind(root.Key), VK: p.WireKind(root.Val)}, false
 		}
 		w := wm.W{K: wm.KMap, KK: p.WireKind(root.Key), VK: p.WireKind(root.Val)}
 		if rv.Kind() == reflect.Map {
